@@ -211,6 +211,9 @@ func (m Model) time0(t time.Time) Exp {
 
 func (m Model) dur(d int64) Exp {
 	unit := m.Set.DurUnit
+	if unit == -1 && !m.Set.DurInt {
+		return m.float(math.Float64bits(float64(d)/float64(0)), 64) // a zero unit: +Inf, -Inf or NaN
+	}
 	if unit <= 0 {
 		unit = int64(time.Millisecond)
 	}
@@ -224,6 +227,9 @@ func (m Model) dur(d int64) Exp {
 func (m Model) iface(v interface{}) Exp {
 	var b []byte
 	var err error
+	if m.Set.IfaceMarshal == "fail" && v != nil {
+		return strS("marshaling error: " + m.Set.IfaceErr)
+	}
 	if m.Set.IfaceMarshal == "stdjson" || m.Set.IfaceMarshal == "wrap" {
 		b, err = json.Marshal(v)
 		if err == nil && m.Set.IfaceMarshal == "wrap" && v != nil {
@@ -663,6 +669,10 @@ func (m Model) ApplyStep(par *LoggerModel, stp Step, ndest *int) *LoggerModel {
 			// zerolog.Nop(): a fresh Disabled logger writing to io.Discard — no context, no hooks,
 			// no sampler; descendants that lower the level run their hooks and write into the void
 			l = LoggerModel{Level: 7, Dest: -1}
+			if m.Set.DefaultCtx {
+				// ... unless the program has set DefaultContextLogger: then that logger it is
+				l = LoggerModel{Level: -1, Dest: 0, Fields: []ExpField{{DefaultCtxKey, strS("default-context-logger")}}}
+			}
 		}
 	case "sample":
 		l.Sampler = &samplerModel{kind: stp.Sampler, n: stp.N}
